@@ -28,9 +28,12 @@ type airStats struct {
 	MutationHist                                                                              map[string]int
 	OutcomeHist                                                                               map[string]int
 	Monitors, Notes, Samples                                                                  []string
+	AirDkg                                                                                    airTraceStats
 }
 
 type airRun struct {
+	// air: the abstract trace of key-generation operations for the Lean model of the handlers (airdkg.go)
+	air  *airTrace
 	st   *airStats
 	ops  *bufio.Writer
 	obs  *bufio.Writer
@@ -419,6 +422,7 @@ func (a *airRun) faultScenario(outDir string, n, t int) {
 		a.mon("harness: " + err.Error())
 		return
 	}
+	c.airTrace = a.air
 	defer c.close()
 	a.st.Scenarios++
 	round, err := c.startDKG(t)
@@ -584,6 +588,7 @@ func (a *airRun) faultScenario(outDir string, n, t int) {
 				}
 			}
 			a.restartScenario(dir, victim, mnemonic, round, ref, refKey, "after-step", 0, true)
+			a.airdkgRestarts(dir, c, victim, mnemonic, round)
 		}
 	}
 	a.secondCeremony(dir, c, victim, mnemonic, round, t)
@@ -890,6 +895,9 @@ func runAirDiff(outDir string, seed int64, tier string) {
 	fb, _ := os.Create(filepath.Join(outDir, "go_obs.txt"))
 	a := &airRun{st: &airStats{MutationHist: map[string]int{}, OutcomeHist: map[string]int{}}, ops: bufio.NewWriterSize(fo, 1<<20),
 		obs: bufio.NewWriterSize(fb, 1<<20), rng: rand.New(rand.NewSource(seed)), tier: tier}
+	fao, _ := os.Create(filepath.Join(outDir, "airdkg_ops.txt"))
+	fab, _ := os.Create(filepath.Join(outDir, "airdkg_obs.txt"))
+	a.air = newAirTrace(bufio.NewWriter(fao), bufio.NewWriter(fab))
 	cfgs := [][2]int{{3, 2}, {2, 2}}
 	if tier == "thorough" {
 		cfgs = [][2]int{{3, 2}, {2, 2}, {4, 3}, {3, 3}}
@@ -901,7 +909,74 @@ func runAirDiff(outDir string, seed int64, tier string) {
 	a.obs.Flush()
 	fo.Close()
 	fb.Close()
+	a.air.flush()
+	fao.Close()
+	fab.Close()
+	a.st.AirDkg = a.air.st
 	writeJSON(filepath.Join(outDir, "stats.json"), a.st)
 	restore()
 	fmt.Printf("airdiff: scenarios=%d mutations=%d panics=%d fatal=%d error-results=%d results=%d monitors=%d\n", a.st.Scenarios, a.st.Mutations, a.st.Panics, a.st.Fatal, a.st.ErrorResults, a.st.OkResults, len(a.st.Monitors))
+}
+
+// airdkgRestarts: a machine with the victim's mnemonic is fed the victim's key-generation operations and stopped, opened
+// again and replayed after EVERY one of them; each operation, each stop and each replayed operation is a line for the Lean
+// model of the handlers (Model/AirDkg.lean: `stop` drops the instances and keeps the key rings; Props/C12Air.lean:
+// replay_is_identity). A replayed operation is expected to be answered as the first time; what the real machine does
+// after the replay is observed on the operations that follow.
+func (a *airRun) airdkgRestarts(dir string, c *cluster, victim *vnode, mnemonic, round string) {
+	tr := a.air
+	if tr == nil {
+		return
+	}
+	mdir := filepath.Join(dir, "airdkg-restarts")
+	m, err := newMachine(mdir, "pw", mnemonic)
+	if err != nil {
+		a.mon("harness: " + err.Error())
+		return
+	}
+	defer func() { m.VerifCloseDB(); os.RemoveAll(mdir) }()
+	type line struct{ op, ob string }
+	var logged []line
+	for _, op := range victim.coldLog {
+		if op.DKGIdentifier != round || op.IsSigningState() || string(op.Type) == "reinit_dkg" {
+			continue
+		}
+		out := tryOperation(m, op, true)
+		before := tr.st.Ops
+		switch out.kind {
+		case "fatal":
+			tr.record(c, &vnode{air: m}, op, nil, fmt.Errorf("%s", out.err))
+		case "result", "error-result":
+			rb, _ := json.Marshal(out.result)
+			tr.record(c, &vnode{air: m}, op, rb, nil)
+		default:
+			return
+		}
+		if tr.st.Ops == before || tr.isTainted(m, round) {
+			// not translated, or a refused step: nothing further is claimed about this machine's round
+			return
+		}
+		if out.kind != "fatal" {
+			logged = append(logged, line{tr.lastOp, tr.lastOb})
+		}
+		// stop, open again, replay
+		m.VerifCloseDB()
+		m2, err := reopenMachine(mdir, "pw")
+		if err != nil {
+			a.mon(fmt.Sprintf("C12 restarts (airdkg): the machine does not open again: %v", err))
+			return
+		}
+		id, _ := tr.rebind(m, m2)
+		m = m2
+		if err := m.ReplayOperationsLog(round); err != nil && !strings.Contains(err.Error(), "not found") {
+			a.mon(fmt.Sprintf("C12 replay (airdkg): ReplayOperationsLog failed: %v", truncate(err.Error(), 160)))
+			return
+		}
+		tr.emit(fmt.Sprintf("stop %d", id), "ok")
+		tr.st.Restarts++
+		for _, l := range logged {
+			tr.emit(l.op, l.ob)
+			tr.st.Replayed++
+		}
+	}
 }
